@@ -494,6 +494,9 @@ def gen_scenarios(ctx, cases, logs, strict, fs_consts, tag):
         if fin[-1]["bad"]:
             lines = lib.read_lines(tp)
             raise Inconclusive(f"T_CrashFS could not apply events: {[lines[k - 1] for k in fin[-1]['bad'][:3]]}")
+        # every crash state must have been printed: distinct states = the chain of Len(trace)+1 stepping states + crash states
+        if r["counts"]["SCENARIO"] != r["distinct"] - (fin[-1]["events"] + 1):
+            raise lib.ToolError(f"T_CrashFS: {r['counts']['SCENARIO']} SCENARIO lines for {r['distinct'] - fin[-1]['events'] - 1} crash states")
         return out, r
 
     t = time.time()
